@@ -99,6 +99,7 @@ def rule_FP(run: Run) -> RuleResult:
         # (c) serialiser: json.dumps of a list (JSON arrays keep their order; a dict of the pairs would be re-ordered by
         # nothing but would collapse … and a set is not serialisable), with no default=/cls= hook
         ser_ok, ser = bool(fps_b), "no json.dumps call"
+        canon = False
         n_dump = 0
         for p in fps_b:
             for e in p.events:
@@ -108,12 +109,21 @@ def rule_FP(run: Run) -> RuleResult:
                     ser = a0.key()[:120] if a0 is not None else "nothing"
                     from .interp import Coll as _Coll
                     listy = isinstance(a0, Seq) or (isinstance(a0, Sym) and a0.head in ("list[]", "call:list", "list")) or (isinstance(a0, _Coll) and getattr(a0, "kind", "list") in ("list", "gen", None))
-                    hooks = [a for a in e.args[1:] if isinstance(a, Sym) and a.head in ("kw:default", "kw:cls", "kw:sort_keys")]
+                    hooks = [a for a in e.args[1:] if isinstance(a, Sym) and (a.head in ("kw:default", "kw:cls") or (
+                        a.head == "kw:sort_keys" and not (a.args and isinstance(a.args[0], Const) and a.args[0].v is True)))]
+                    if any(isinstance(a, Sym) and a.head == "kw:sort_keys" and a.args and isinstance(a.args[0], Const) and a.args[0].v is True for a in e.args[1:]):
+                        canon = True
                     if not listy or hooks:
                         ser_ok = False
         if n_dump == 0:
             ser_ok = False
         res.add(f"{cons}:json-list-serialiser", ser_ok, f, fn.lineno, f"serialised value: {ser}", nec)
+        # (c') a section-valued option is serialised with its entries in a canonical order: json.dumps writes a dict in insertion order,
+        # so equal dictionaries built in different orders get different texts unless sort_keys=True (or an equivalent canonical form)
+        res.add(f"{cons}:a section value is serialised independent of its insertion order", canon, f, fn.lineno,
+                "json.dumps(..., sort_keys=True)" if canon else "json.dumps without sort_keys: {'S': {'a': 1, 'b': 2}} and {'S': {'b': 2, 'a': 1}} are equal and get different fingerprints",
+                "the fingerprint is identical for dictionaries that agree on the reported keys and their values (C03); a repeated evaluation with an equal "
+                "dictionary is served from the cache (C02)")
         # (d) returned bytes derive from the dump
         # (read off the returned terms of the interpreter's paths, so a private helper that does the dumping is seen through)
         ret_ps = [p for p in fps_b if p.status == "ret"]
